@@ -66,11 +66,12 @@ func PlanFor(tier string) []LenPlan {
 }
 
 // DefaultPlan: lists of length <= 2 are explored over EVERY schedule (no bound) without and
-// with every single fault. Executions of 3 type groups already have 400-840 schedules with
+// with every single fault. Executions with 3 type groups already have 400-840 schedules with
 // zero preemptions (every goroutine exit / WaitGroup block is a free choice among the
-// others), so longer lists get lower bounds; full = false (configurations whose generated
-// federation code is identical to an already fully explored one) keeps length 3 at the
-// canonical schedule.
+// others; measured 8.4M executions for the fault-free lists of length 3 at pb=0), so longer
+// lists get lower bounds: quick runs length 3 (fault-free and every single fault) on the
+// canonical schedule; thorough adds, for full configurations, every zero-preemption
+// schedule of every fault-free list of length 3, and length 4 on the canonical schedule.
 func DefaultPlan(tier string, full bool) []LenPlan {
 	k := len(Alphabet)
 	if tier == "thorough" {
